@@ -62,7 +62,7 @@ def run(ctx):
         lits = sorted(i for i in ints if 0 < i < 2 ** 31)
         files = []
         wv = battle.wows_versions()
-        picks = wv if not q else battle.representative_versions(9)[::2]
+        picks = wv if not q else battle.representative_versions(9)
         chunks = [lits[i::len(picks)] for i in range(len(picks))]
         for v, ids in zip(picks, chunks):
             p = os.path.join(tmp, 'w-%s.wowsreplay' % v)
@@ -89,10 +89,11 @@ def run(ctx):
             except Exception as ex:
                 ctx.violation(dict(kind='not-serialisable', file=os.path.basename(f), exception='%s: %s' % (type(ex).__name__, str(ex)[:200]),
                                    how='json.dumps(ReplayParser(file).get_info(), cls=DefaultEncoder)')); continue
-            pr = subprocess.run([common.PY, os.path.join(common.REPO, 'replay_parser.py'), '--replay', f], capture_output=True, text=True, env=env, timeout=600, cwd=tmp)
+            prb = subprocess.run([common.PY, os.path.join(common.REPO, 'replay_parser.py'), '--replay', f], capture_output=True, env=env, timeout=600, cwd=tmp)
+            class pr: returncode = prb.returncode; stdout = prb.stdout.decode('utf-8', 'backslashreplace'); stderr = prb.stderr.decode('utf-8', 'backslashreplace')
             ok = pr.returncode == 0
             try:
-                doc = json.loads(pr.stdout); same = doc == json.loads(text)
+                doc = json.loads(prb.stdout.decode('utf-8')); same = doc == json.loads(text)       # a JSON document is UTF-8 text
             except ValueError:
                 doc = None; same = False
             if not (ok and same):
